@@ -392,7 +392,9 @@ func init() {
 					}
 					return append(append(pp(x[:1]), pp(x[1:])...), 0x7e)
 				}},
-				{"CAT-grown", func(x []byte) []byte { return append(append(append(pp(x), pp([]byte{0x01})...), 0x7e), append(pp([]byte{0x02, 0x03}), 0x7e)...) }},
+				{"CAT-grown", func(x []byte) []byte {
+					return append(append(append(pp(x), pp([]byte{0x01})...), 0x7e), append(pp([]byte{0x02, 0x03}), 0x7e)...)
+				}},
 				{"ADD", func(x []byte) []byte { return append(append(pp(x), 0x52), 0x93) }},
 				{"NUM2BIN", func(x []byte) []byte { return append(append(pp(x), gen.PushNum(int64(len(x)+1))...), 0x80) }},
 				{"INVERT-INVERT", func(x []byte) []byte { return append(pp(x), 0x83, 0x83) }},
